@@ -166,3 +166,9 @@ func VerifH_serial_hmac() {
 	verifrt.Assert(err == nil, "NewKey")
 	verifh.CheckKeyRoundTrip(k, &keySerializer{}, &keyParser{}, &parametersSerializer{}, &parametersParser{}, kind, id, typeURL, tinkpb.KeyData_SYMMETRIC)
 }
+
+func VerifH_c18_hmac() {
+	verifrt.EngineOnly()
+	m, _, _, _, _, _ := build()
+	verifh.CheckMACShared(m)
+}
